@@ -66,14 +66,22 @@ def check_series(ctx, VG, x, t, horizontal, missing, cid, relations=True,
     n = len(x)
     kind = "horizontal" if horizontal else "natural"
     tt = list(range(n)) if t is None else list(t)
+    whole = n > 300 and t is None and not missing and \
+        all(float(v) == int(v) for v in x)
     if horizontal:
-        R = ref.horizontal(x, missing)
+        R = ref.horizontal_fast(x) if whole else ref.horizontal(x, missing)
     else:
-        R = ref.natural(x, tt, missing)
+        R = ref.natural_int(x) if whole else ref.natural(x, tt, missing)
+    # the two switches in the type a caller may hold them in: a Python bool,
+    # a NumPy bool (element of a flag array, result of a comparison) or 0 / 1
+    rf = ctx.rng("flagtype", cid)
+    as_flag = [bool, bool, np.bool_, int, np.int64][int(rf.integers(0, 5))]
+    if as_flag is not bool:
+        ctx.count("switches_not_python_bool")
     ok, g = ctx.call(VG, np.array(x, dtype=dtype),
                      timings=None if t is None else np.array(t, dtype=float),
-                     missing_values=missing, horizontal=horizontal,
-                     silence_level=3)
+                     missing_values=as_flag(missing),
+                     horizontal=as_flag(horizontal), silence_level=3)
     ctx.evals()
     case = {"x": x, "t": t, "horizontal": horizontal, "missing": missing}
     if not ok:
@@ -150,6 +158,8 @@ def check_series(ctx, VG, x, t, horizontal, missing, cid, relations=True,
         ctx.violation(f"{kind}:ret+adv!=degree", {**case, "ret": rd,
                                                    "adv": ad, "deg": dg}, cid)
     ctx.count("degree_sum_checked")
+    if relations == "degrees":
+        return
     # (series with missing samples take part in the relations as well: the
     #  graph is then disconnected, which is where the time-directed
     #  closeness measures meet infinite path lengths)
@@ -305,6 +315,20 @@ def run(ctx):
                     with ctx.guard(300):
                         check_series(ctx, VG, x, None, hz, False, cid)
                     ctx.count("long_hub_series")
+    # 2c. records longer than 512 / 1024 (/ 2048) samples (row blocks of
+    # chunked implementations): whole-numbered random walks with plateaus,
+    # adjacency, accessors and degrees against the exact integer reference
+    for n in (515, 1027) + ((2051,) if ctx.thorough else ()):
+        for hz in (False, True):
+            j += 1
+            cid = f"verylong:{n}:{int(hz)}"
+            if ctx.mine(j) and ctx.want(cid):
+                r = ctx.rng("verylong", n, int(hz))
+                x = np.cumsum(r.integers(-3, 4, n)).astype(float).tolist()
+                with ctx.guard(600):
+                    check_series(ctx, VG, x, None, hz, False, cid,
+                                 relations="degrees")
+                ctx.count("very_long_series")
     # 3. random
     k = 0
     while ctx.time_left() > 0 and k < (60000 if ctx.thorough else 400):
